@@ -306,6 +306,7 @@ def run_C18(ctx, R):
     from .rules import tree
     _scoped(ctx, R, _tab3_reads, C18_ENTRIES, 6)
     _per_config(ctx, R, utilsx.mrg5)
+    _per_config(ctx, R, _inl(utilsx.mrg6))
     _per_config(ctx, R, utilsx.ord2)
 
 
@@ -1076,6 +1077,8 @@ _WAVE11 = {
     'C08': "OUT4 (the clause on a refused reallocate): with the result NULL every way out of ensure passes a release of the old block.",
     'C09': "OUT4 has the same clause here.",
     'C10': "TAB4: a literal needs no more readable bytes than it has (a literal that ends the buffer is a complete document).",
+    'C18': "MRG6: in merge_patch / generate_merge_patch no branch decides on a byte of a member name compared with a constant (the empty "
+           "name is a name).",
     'C16': "TAB10: a bounded comparison with an operation name takes the terminator in (strncmp(op, \"add\", 3) is true of \"addendum\"). OWN11 (see C07).",
 }
 for _k, _t in _WAVE11.items():
